@@ -2,7 +2,7 @@
 import ast
 
 from .. import nf, bind
-from ..nf import Poly, Tup, Const, NONE, TRUE, FALSE
+from ..nf import Poly, Tup, Const, Slice, NONE, TRUE, FALSE
 from ..effects import Effects
 from ..model import AnalysisError
 from ..rules import run as analyse, returns, fmt, is_app, S, C, conds_str
@@ -221,6 +221,10 @@ def run(chk, repo, tier):
                 va2 = vv.single_atom() if isinstance(vv, Poly) else None
                 plain = va2 is not None and is_app(va2, 'callv') and \
                     {nf.vkey(x) for x in va2[2][1:3]} == {nf.vkey(nf.index(r, C(1))), nf.vkey(nf.index(r, C(2)))} if va2 is not None and is_app(va2, 'callv') and len(va2[2]) >= 3 else False
+                if not plain and va2 is not None and is_app(va2, 'callv') and len(va2[2]) == 2:
+                    # ufunc(*operands) with `wave, *operands = _interp_common(...)`: everything after the grid, in order
+                    sa = va2[2][1].single_atom() if isinstance(va2[2][1], Poly) else None
+                    plain = sa is not None and is_app(sa, 'starred') and sa[2][0] == nf.index(r, Slice(C(1), NONE))
                 if not plain:
                     value_ok = False
                     value_det = f'value = {fmt(vv)[:120]}'
@@ -327,4 +331,8 @@ def run(chk, repo, tier):
                 va = val.single_atom() if isinstance(val, Poly) else None
                 okfill = okfill and va is not None and is_app(va, 'setitem') and va[2][2] == sm.result and \
                     va[2][0] == S('fill_value') * nf.app('ones', nf.attr(r.items[0], 'shape'))
-        chk.ob('C13-f', 'N-sibling', fi.key, f'values start as fill_value and receive the samples [{tag}]', okfill, '', fi.loc())
+        det_fill = ''
+        if not (isinstance(r, Tup) and len(r) == 3) or any(isinstance(x, Poly) and x.single_atom() is not None and
+                                                            x.single_atom()[0] in ('loop', 'iter') for x in (r.items if isinstance(r, Tup) else ())):
+            okfill, det_fill = None, f'undecided: the returned triple is not resolved: {fmt(r)[:160]}'
+        chk.ob('C13-f', 'N-sibling', fi.key, f'values start as fill_value and receive the samples [{tag}]', okfill, det_fill, fi.loc())
